@@ -76,3 +76,20 @@ Definition sp_at_ret (f : fin) (E : Z) : Z := if keep_fp f then bp_of E + 8 else
 Definition va_start_reg_save_area (E : Z) : Z := bp_of E - reg_save_area_size.
 (* incoming stack parameter at Stk off: "mem_size + 8 + start_sp_from_bp_offset (bp)" *)
 Definition incoming_stack_addr (E off : Z) : Z := bp_of E + 16 + off.
+
+(* ------------------------------------------------------------------ the interpreter entry shim *)
+(* _MIR_get_interp_shim (mir-x86_64.c): push rbx; save_pat = sub $0x80,rsp; movdqu xmm0-7 -> 0..0x70(rsp);
+   push r9,r8,rcx,rdx,rsi,rdi; prepare_pat = sub 32,rsp; va_list at rsp: gp_offset 0, fp_offset 48,
+   reg_save_area = 32(rsp), overflow_arg_area = 224(rsp); sub nres*16,rsp; call handler;
+   shim_end = add 208+nres*16,rsp; pop rbx; ret.   E = rsp at shim entry. *)
+Definition shim_after_push_rbx (E : Z) : Z := E - 8.
+Definition shim_xmm_area (E : Z) : Z := shim_after_push_rbx E - 128.           (* xmm<n> at +16n *)
+Definition shim_gpr_area (E : Z) : Z := shim_xmm_area E - 48.                  (* after the six pushes *)
+(* address each integer argument register was pushed to: push order r9,r8,rcx,rdx,rsi,rdi *)
+Definition shim_pushed_gpr (E : Z) (n : Z) : Z := shim_xmm_area E - 8 * (6 - n). (* n = 0 (rdi) .. 5 (r9) *)
+Definition shim_va_list_addr (E : Z) : Z := shim_gpr_area E - 32.
+Definition shim_reg_save_area (E : Z) : Z := shim_va_list_addr E + 32.
+Definition shim_overflow_arg_area (E : Z) : Z := shim_va_list_addr E + 224.
+Definition shim_rsp_at_call (E nres : Z) : Z := shim_va_list_addr E - 16 * nres.
+Definition shim_results_addr (E nres : Z) : Z := shim_rsp_at_call E nres.      (* rcx = rsp: MIR_val_t results[nres] *)
+Definition shim_rsp_at_ret (E nres : Z) : Z := shim_rsp_at_call E nres + (208 + 16 * nres) + 8.
